@@ -7,7 +7,7 @@
     eq_empty_fragment_insensitive, eq_ignores_formatter, norm_normal,
     render_spec, render_any_writer, render_recorded, lookup_first_wins, lookup_absent_iff,
     render_owned_borrowed_same, render_same_of_eq,
-    macro_parts_norm, macro_eq_meaning, macro_plain_literal_same
+    macro_parts_norm, macro_eq_meaning, macro_render_same, macro_plain_literal_same
 -/
 import EmitModel.Lemmas.Template
 import EmitModel.Lemmas.TemplateMacro
@@ -218,6 +218,16 @@ theorem macro_eq_meaning (ext : List (List Char × List Char)) (src : List Char)
   simp [ho]
 
 open EmitModel.TemplateMacro in
+/-- A macro-built template without format flags renders, for every property set, exactly like any formatter-free
+    hand-built (borrowed or owned) template with the literal's meaning. -/
+theorem macro_render_same (tbl : Nat → Val → List UInt8) (ext : List (List Char × List Char)) (src : List Char)
+    (parts : List MPart) (h : macroParts ext src = some parts) (hf : NoFlags parts)
+    (other : List Part) (ho : literalMeaning src = some (norm other)) (hof : NoFmt other)
+    (props : List (List UInt8 × Val)) (s : List UInt8) :
+    render (stringWriter tbl) props (toParts parts) s = render (stringWriter tbl) props other s :=
+  render_same_of_eq tbl _ _ (macro_eq_meaning ext src parts h other ho) (noFmt_toParts parts hf) hof props s
+
+open EmitModel.TemplateMacro in
 /-- A literal without braces and backslashes is one text part holding the literal itself: the macro-built template
     is the `Template::literal` of the same text. -/
 theorem macro_plain_literal_same (ext : List (List Char × List Char)) (src : List Char) (h : NoBrace src)
@@ -241,6 +251,9 @@ open EmitModel.TemplateMacro in
 /-- and literals the macros reject have no parts: `"a}"`, `"{"` -/
 example : macroParts [] ['a', '}'] = none ∧ macroParts [] ['{'] = none := by
   simp [macroParts, segments, textMode]
+open EmitModel.TemplateMacro in
+example : NoFlags [.text ['{'], .hole ['x'] none, .text ['\n']] := by
+  intro l f h; simp at h; exact h.2
 open EmitModel.TemplateMacro in
 example : NoBrace ['h', 'i'] ∧ ['h', 'i'].contains '\\' = false := by
   refine ⟨?_, by decide⟩
